@@ -161,6 +161,26 @@ fn one<F: RF>(st: &mut Stats, c: &Case, opts: &ValueOpts, v: &DecN) {
             }
             // the same valid digits through an iterator with an inexact size hint (Filter / TakeWhile): every 4th input of
             // 20 or more digits. The value is a function of the digits, not of the iterator type (round 8, C02-Q / C06-Q).
+            // ... and, when the 20th significant digit is a zero, the same value written with the decimal point right after
+            // it, through a Filter iterator: the 19 retained digits are then followed by dropped *integer* zeros and a
+            // fraction whose size hint has a zero lower bound (round 9, C07-S; equal values, equal bits)
+            let n = c.int.len() + c.frac.len();
+            if ok && n > 20 && c.int.len() != 20 && (!c.int.is_empty() || c.frac[0] != b'0') {
+                let d19 = if c.int.len() > 19 { c.int[19] } else { c.frac[19 - c.int.len()] };
+                let last = if c.frac.is_empty() { c.int[c.int.len() - 1] } else { c.frac[c.frac.len() - 1] };
+                let ex = c.exp as i64 - c.frac.len() as i64 + (n as i64 - 20);
+                if d19 == b'0' && last != b'0' && ex >= i32::MIN as i64 && ex <= i32::MAX as i64 {
+                    let mut joined: Vec<u8> = Vec::with_capacity(n);
+                    joined.extend_from_slice(c.int);
+                    joined.extend_from_slice(c.frac);
+                    st.bump("split_after_zero_20th_digit_checked");
+                    match real::parse_lossy::<F>(&joined[..20], &joined[20..], ex as i32, 0) {
+                        Ok(b2) if b2 == bits => {},
+                        Ok(b2) => viol(st, "misrounded-when-split-after-a-zero-20th-digit-through-filter-iterator", format!("{:#x}", b2), format!("{:#x}", bits)),
+                        Err(msg) => viol(st, "panic-when-split-after-a-zero-20th-digit-through-filter-iterator", format!("panic: {}", msg), format!("{:#x}", bits)),
+                    }
+                }
+            }
             if ok && c.int.len() + c.frac.len() >= 20 && st.calls % 4 == 0 {
                 st.bump("lossy_iterator_checked");
                 match real::parse_lossy::<F>(c.int, c.frac, c.exp, (st.calls / 4 % 2) as u8) {
